@@ -234,33 +234,7 @@ def run(ctx, rep):
                           '%s does not convert between host and big-endian order as its sibling does' % b.path)
     rep.floor('table get/set implementations', ng, 6)
     # ---------------------------------------------------------------- C15.5
-    raw = f.adts.get('meta::header::Qcow2RawHeader')
-    if raw is None:
-        raise AnalysisError('Qcow2RawHeader not found')
-    got = []
-    for fl in raw['variants'][0]['fields']:
-        t = f.types[fl['t']]
-        got.append((fl['n'], {'u8': 8, 'u16': 16, 'u32': 32, 'u64': 64}.get(t.get('p'))))
-    ok = got == SPEC_HEADER and raw['repr_packed']
-    rep.ob('C15.5', 'Qcow2RawHeader layout', ok, '%d fields, packed=%s' % (len(got), raw['repr_packed']))
-    if not ok:
-        diff = [(a, b) for a, b in zip(got, SPEC_HEADER) if a != b][:3]
-        rep.violation('C15.5', 'C15.5:layout', '', 'the raw header field sequence differs from the specification: %s' % diff)
-    nser = 0
-    for b in f.body_list:
-        if '::tests::' in b.path:
-            continue
-        fns = [t.get('fn') or '' for _bi, t in b.calls()]
-        uses = [x for x in fns if x.startswith('bincode::') and (x.endswith('::serialize') or x.endswith('::deserialize'))]
-        if not uses:
-            continue
-        nser += 1
-        ok = any('with_fixint_encoding' in x for x in fns) and any('with_big_endian' in x for x in fns)
-        rep.ob('C15.5', 'serialiser configuration in %s' % short(b.path), ok, 'fixint + big endian')
-        if not ok:
-            rep.violation('C15.5', 'C15.5:bincode:%s' % short(b.path), b.where(0),
-                          '%s (de)serialises header data without fixed-width big-endian encoding' % short(b.path))
-    rep.floor('bincode (de)serialisation sites', nser, 3)
+    header_layout_rule(f, rep, 'C15.5')
     sb2 = f.body('meta::header::Qcow2Header::serialize_to_buf')
     if sb2 is None:
         raise AnalysisError('serialize_to_buf not found')
@@ -285,6 +259,36 @@ def run(ctx, rep):
         raise AnalysisError('serialize_to_buf: store to backing_file_offset not found')
     # ---------------------------------------------------------------- C15.6
     key_rule(f, P, rep, 'C15.6')
+
+
+def header_layout_rule(f, rep, rid):
+    raw = f.adts.get('meta::header::Qcow2RawHeader')
+    if raw is None:
+        raise AnalysisError('Qcow2RawHeader not found')
+    got = []
+    for fl in raw['variants'][0]['fields']:
+        t = f.types[fl['t']]
+        got.append((fl['n'], {'u8': 8, 'u16': 16, 'u32': 32, 'u64': 64}.get(t.get('p'))))
+    ok = got == SPEC_HEADER and raw['repr_packed']
+    rep.ob(rid, 'Qcow2RawHeader layout', ok, '%d fields, packed=%s' % (len(got), raw['repr_packed']))
+    if not ok:
+        diff = [(a, b) for a, b in zip(got, SPEC_HEADER) if a != b][:3]
+        rep.violation(rid, rid + ':layout', '', 'the raw header field sequence differs from the specification: %s' % diff)
+    nser = 0
+    for b in f.body_list:
+        if '::tests::' in b.path:
+            continue
+        fns = [t.get('fn') or '' for _bi, t in b.calls()]
+        uses = [x for x in fns if x.startswith('bincode::') and (x.endswith('::serialize') or x.endswith('::deserialize'))]
+        if not uses:
+            continue
+        nser += 1
+        ok = any('with_fixint_encoding' in x for x in fns) and any('with_big_endian' in x for x in fns)
+        rep.ob(rid, 'serialiser configuration in %s' % short(b.path), ok, 'fixint + big endian')
+        if not ok:
+            rep.violation(rid, rid + ':bincode:%s' % short(b.path), b.where(0),
+                          '%s (de)serialises header data without fixed-width big-endian encoding' % short(b.path))
+    rep.floor('bincode (de)serialisation sites', nser, 3)
 
 
 def _reaches(b, src, dst):
